@@ -166,7 +166,7 @@ func (p *Pool) GetCategory(category string) []util.Uint256 {
 			res = append(res, h)
 		}
 	}
-	return res
+	return verifOrder(res)
 }
 
 const extensibleVerifyMaxGAS = 6000000
